@@ -90,6 +90,8 @@ def mutation_seeds(tier, seed):
         {'shape': [3, 3], 'mask': 0b111101111, 'obs_md': 'two', 'samp_md': 'taxonomy', 'header': 2},
         {'shape': [2, 3], 'mask': 0b111000, 'obs_md': 'float', 'samp_md': 'bool', 'header': 1},
         {'shape': [0, 0], 'mask': 0, 'header': 1},          # the empty table: both axes have length zero
+        {'shape': [0, 2], 'mask': 0, 'header': 1},
+        {'shape': [2, 0], 'mask': 0, 'header': 1},
     ]
     h = [
         {'shape': [2, 3], 'mask': 0b101101, 'obs_md': 'taxonomy', 'samp_md': 'two', 'header': 1},
@@ -97,6 +99,10 @@ def mutation_seeds(tier, seed):
         {'shape': [2, 2], 'mask': 0, 'obs_md': 'text', 'samp_md': 'text', 'header': 1},
         {'shape': [3, 3], 'mask': 0b110011101, 'obs_style': 'natsort', 'samp_style': 'natsort',
          'obs_md': 'float', 'samp_md': 'text', 'header': 2},
+        # one axis (or both) of length zero: the library writes such files and reports them valid
+        {'shape': [0, 2], 'mask': 0, 'header': 1},
+        {'shape': [2, 0], 'mask': 0, 'header': 1},
+        {'shape': [0, 0], 'mask': 0, 'header': 1},
     ]
     for k, s in enumerate(j):
         s.update({'rot': rot, 'pool': 'hard', 'type': ty(k)})
@@ -732,21 +738,40 @@ def ops_of(fmt):
     return _OPS[fmt]
 
 
-def seed_artefact(fmt, spec, tmp, acc):
-    """the library-written seed: JSON text or an HDF5 file path (cached per worker directory)"""
+def seed_artefact(fmt, spec, tmp, acc, variant=''):
+    """the library-written seed: JSON text or an HDF5 file path (cached per worker directory).
+    variant: '' = returned string / compressed file with a given creation date; the other ways the library
+    writes the same table are 'direct' (JSON streamed into a file object), 'today' (no creation date given),
+    'direct-today', 'plain' (HDF5 without compression), 'write_biom_table' (the helper behind the commands)"""
+    import io
     import h5py
-    key = (fmt, tmp, json.dumps(spec, sort_keys=True))
+    key = (fmt, tmp, json.dumps(spec, sort_keys=True), variant)
     if key in _SEEDS:
         return _SEEDS[key]
     t = D.build(spec)
     acc.trans += 1
-    if fmt == 'json':
-        art = t.to_json(GEN, creation_date=DATE)
+    datekw = {} if 'today' in variant else {'creation_date': DATE}
+    if variant == 'write_biom_table':
+        from biom.cli.util import write_biom_table
+        art = os.path.join(tmp, 'seedw_%s_%016x.biom' % (fmt, h64(key[2])))
+        write_biom_table(t, fmt, art)
+        if fmt == 'json':
+            p_ = art
+            art = open(p_, encoding='utf-8').read()
+            os.unlink(p_)
+    elif fmt == 'json':
+        if 'direct' in variant:
+            buf = io.StringIO()
+            t.to_json(GEN, direct_io=buf, **datekw)
+            art = buf.getvalue()
+        else:
+            art = t.to_json(GEN, **datekw)
     else:
-        art = os.path.join(tmp, 'seed_%016x.h5' % h64(key[2]))
+        art = os.path.join(tmp, 'seed%s_%016x.h5' % (variant, h64(key[2])))
         with h5py.File(art, 'w') as f:
-            t.to_hdf5(f, GEN, creation_date=DATE)
-    _SEEDS[key] = art
+            t.to_hdf5(f, GEN, compress=(variant != 'plain'), **datekw)
+    if variant == '':
+        _SEEDS[key] = art
     return art
 
 
@@ -793,9 +818,13 @@ def check(case, acc, tmp):
 def check_seed(case, acc, tmp):
     """oracle clause (1) on one table, both formats, every accepted format_version spelling"""
     spec = case['spec']
-    for fmt, versions in (('json', [None, '1.0.0']), ('hdf5', [None, '2.1', '2.1.0'])):
+    for fmt, variant, versions in (('json', '', [None, '1.0.0']), ('hdf5', '', [None, '2.1', '2.1.0']),
+                                   ('json', 'direct', [None]), ('json', 'today', [None]),
+                                   ('json', 'direct-today', [None]), ('json', 'write_biom_table', [None]),
+                                   ('hdf5', 'plain', [None]), ('hdf5', 'today', [None]),
+                                   ('hdf5', 'write_biom_table', [None])):
         try:
-            art = seed_artefact(fmt, spec, tmp, acc)
+            art = seed_artefact(fmt, spec, tmp, acc, variant)
         except Exception as e:
             acc.count('skipped:seed-writer-raised:%s:%s' % (fmt, type(e).__name__))
             continue
@@ -820,17 +849,22 @@ def check_seed(case, acc, tmp):
         for ver in versions:
             acc.evals += 1
             acc.count('clause:seed-valid:' + fmt)
+            if variant:
+                acc.count('clause:seed-valid:%s:%s' % (fmt, variant))
             verdict, rep = validate(path, acc, fmt, ver)
             acc.outcomes.add(h64((fmt, verdict, rep)))
+            how = fmt + (':' + variant if variant else '')
             if verdict == 'invalid':
-                acc.violation('seed-rejected:%s' % fmt, 'library-written %s file reported invalid '
-                              '(format_version=%r): %s' % (fmt, ver, rep), case)
+                acc.violation('seed-rejected:%s' % how, 'library-written %s file reported invalid '
+                              '(format_version=%r): %s' % (how, ver, rep), case)
             elif verdict == 'crash':
-                acc.violation('seed-validator-crashed:%s' % fmt, 'validator raised on a library-written '
-                              '%s file (format_version=%r): %s' % (fmt, ver, rep), case)
+                acc.violation('seed-validator-crashed:%s' % how, 'validator raised on a library-written '
+                              '%s file (format_version=%r): %s' % (how, ver, rep), case)
         if fmt == 'json':
-            if verdict == 'valid':
+            if verdict == 'valid' and not variant:
                 clause3(acc, case, path, seed_doc, set(), [], 'seed')
+            os.unlink(path)
+        elif variant:
             os.unlink(path)
     acc.nontrivial.add(h64(json.dumps(spec, sort_keys=True)))
 
@@ -1084,6 +1118,8 @@ def run(run):
     need = ['clause:seed-valid:json', 'clause:seed-valid:hdf5', 'clause:corrupt-never-valid:json',
             'clause:corrupt-never-valid:hdf5', 'clause:valid-implies-loadable', 'clause3:loaded',
             'pair:json:corrupt', 'pair:hdf5:corrupt', 'pair:json:cancelled', 'pair:hdf5:cancelled']
+    need += ['clause:seed-valid:json:' + v for v in ('direct', 'today', 'direct-today', 'write_biom_table')]
+    need += ['clause:seed-valid:hdf5:' + v for v in ('plain', 'today', 'write_biom_table')]
     need += ['applied:json:' + o.name for o in jo] + ['applied:hdf5:' + o.name for o in ho]
     need += ['applied-second:json:' + o.name for o in jo] + ['applied-second:hdf5:' + o.name for o in ho]
     if run.tier == 'thorough':
